@@ -21,6 +21,12 @@
 //	version   GetBlockVersion ≡ reference table; Header/Block hash by version
 //	chain     version and hash of every block through the node's own builders,
 //	          import and database read-back across the forks
+//	uncle     Engine.VerifyUncles (real engine): an uncle's seal is judged with the
+//	          version of the uncle's own height, across every fork (uncle.go)
+//
+// The ethash leg also compares the MINING dataset item by item with the
+// reference and repeats that, plus version-1 seals, in grandchildren pinned to
+// 3 and 5 CPUs (dag.go).
 package c14
 
 import (
@@ -31,6 +37,7 @@ import (
 	"fmt"
 	"math/big"
 	"os"
+	"strings"
 	"sync"
 	"time"
 
@@ -57,6 +64,8 @@ func init() {
 			"difficulties {-1, 0, 1, 2, 3, 2^255, 2^256-1, 2^256, 2^256+1, random small/large/negative} for versions 1..4, plus reference-mined nonces at difficulty 8..400 with nonce±1, " +
 			"three one-bit mix-digest changes and a one-bit change of a sealed field; boundary cases substitute the final hash with target-1/target/target+1 for every power-of-two difficulty 2^0..2^257 and random difficulties; " +
 			"seal cases run Engine.Seal at fork-1/fork/fork+1 of HF5/HF8/HF9 of every built-in schedule with threads {1,2,4,16,0} and difficulty 1..2^14. " +
+			"uncle cases wrap a reference-mined uncle at fork-1..fork-3 (and same-side controls) in a nephew at fork..uncle+6 over an in-memory chain and call VerifyUncles, with nonce neighbours, a mix flip and a nonce valid only under the nephew's algorithm; " +
+			"dataset cases compare every item of the miner's test-mode dataset (4 epochs; again with 3 and 5 CPUs through taskset) with the reference. " +
 			"A case is non-trivial when the reference predicate evaluated both an accepted and a rejected seal for it (or, for seal cases, when a seal was returned); distinct = header+nonce+difficulty content.",
 		Legs: func(tier string) []fw.Leg {
 			to := 20 * time.Minute
@@ -70,6 +79,7 @@ func init() {
 				{Name: "seal", Variant: "plain", Batches: 16, Timeout: to},
 				{Name: "version", Variant: "plain", Batches: 4, Timeout: to},
 				{Name: "chain", Variant: "plain", Batches: 2, Timeout: to},
+				{Name: "uncle", Variant: "plain", Batches: 4, Timeout: to},
 			}
 		},
 		Run: run,
@@ -90,12 +100,20 @@ func init() {
 				"boundary_sealer_eq_target": 20,
 				"seal_returned_v1":          8, "seal_returned_v2": 20, "seal_returned_v3": 20, "seal_returned_v4": 20,
 				"seal_threads_1": 10, "seal_threads_2": 10, "seal_threads_4": 10, "seal_threads_16": 10, "seal_threads_0": 10,
-				"seal_at_fork_edge":           60,
-				"seal_threads_changed_midway": 2,
-				"version_compared":            1000,
-				"version_fork_edge":           30,
-				"chain_block_version_hash":    100,
-				"chain_fork_crossed":          6,
+				"seal_at_fork_edge":                  60,
+				"seal_threads_changed_midway":        2,
+				"version_compared":                   1000,
+				"version_fork_edge":                  30,
+				"chain_block_version_hash":           100,
+				"chain_fork_crossed":                 6,
+				"dataset_items_compared":             2048,
+				"uncle_across_HF5":                   4,
+				"uncle_across_HF8":                   4,
+				"uncle_across_HF9":                   4,
+				"uncle_same_side_control_accepted":   8,
+				"uncle_nephew_version_only_rejected": 8,
+				"uncle_invalid_rejected":             50,
+				"uncle_substituted_hash_accepted":    3,
 			}
 		},
 		AnchorFiles: []string{"/consensus/aquahash/", "/crypto/hash.go", "/params/hf.go"},
@@ -105,6 +123,8 @@ func init() {
 			"seal-free header hash: Keccak-256 of the RLP of the first 13 fields for versions 1, 2 and 4, argon2id-16KiB of it for version 3 — the implementation's pinned behaviour (the property does not fix this algorithm)",
 			"version 1: the reference ethash is written from the public specification and self-tested against go-ethereum's hashimoto vector and a real Ethereum main-network block (3311058) at full size; the engine's ModeTest sizes (1 KiB cache, 32 KiB dataset) are taken as given for the generated cases",
 			"boundary leg: crypto.Keccak256 (a package variable) is replaced, in a dedicated child process, by a memoising stub that answers only the final 96-byte hashimoto input; everything else is the real code",
+			"uncle leg: uncle headers get the difficulty the node's own CalcDifficulty demands (workload construction, not oracle); schedules whose rule demands >= 46,039,386 there (mainnet, testnet, test) are covered only at HF5 and only with the substituted final hash (version-1 uncle, value forced to 0); a refusal by a rule other than the seal is inconclusive, not a verdict",
+			"mining dataset: runtime.NumCPU() of the process decides how the generator splits its work; besides the host's count, 3 and 5 CPUs are exercised through /usr/bin/taskset when it exists (otherwise counted as skipped, not gated)",
 			"heights are kept below 61,440,000 (end of the ethash epoch table), where VerifySeal refuses every header regardless of version; that refusal is counted as an observation, it is outside the property's quantifier",
 		},
 	})
@@ -499,6 +519,12 @@ func run(c *fw.Ctx) {
 		runVersion(c)
 	case "chain":
 		runChain(c)
+	case "uncle":
+		runUncle(c)
+	default:
+		if strings.HasPrefix(c.Leg, cpuLegPrefix) {
+			runPinned(c) // grandchild of the ethash leg, started through taskset
+		}
 	}
 }
 
@@ -649,8 +675,18 @@ func runEthash(c *fw.Ctx) {
 		refs[ep] = e
 		return e
 	}
-	if c.Batch == 0 {
+	switch c.Batch {
+	case 0:
 		fullSizeCase(c)
+	case 1:
+		datasetCases(c, "own")
+		pinnedGrandchild(c, 3)
+	case 2:
+		pinnedGrandchild(c, 5)
+	case 3:
+		if c.Thorough() {
+			realDatasetCase(c)
+		}
 	}
 	for i := 0; i < n; i++ {
 		r := c.Rand("ethash", fmt.Sprint(i))
